@@ -78,7 +78,7 @@ def run(ctx):
         for _, _, f in jobs:
             for r in lib.read_ndjson(f):
                 if "outcome" in r:
-                    r = {"id": r["id"], "seed": r["input"]["seed"], "frames": 0, "markers": [], "drops": 0, "payload": 0, "payload_seen": 0, "panic": r["outcome"]}
+                    r = {"id": r["id"], "seed": r["input"]["seed"], "frames": 0, "markers": [], "drops": 0, "payload": 0, "payload_seen": 0, "image": False, "kitty": [], "panic": r["outcome"]}
                 rrecs.append(r)
         rv, _ = lib.judge_sharded(ctx, "io/FrameStream", None, rrecs, "render", nshards=4)
         rby = {r["id"]: r for r in rrecs}
